@@ -110,3 +110,23 @@ func (fl *File) Close() error {
 		leftInExtent := extentSize - startPositionInExtent
 		// how many bytes are left to read""")]},
 ]
+
+SEEDS += [
+ {"name": "c10-fat-chain-test-before-eof", "properties": ["C10"], "expect": "C10-e|",
+  "edits": [e("filesystem/fat12/file.go", """	clusterIndex := 0
+
+	// if there is nothing left to read, just return EOF
+	if size <= 0 {
+		return totalRead, io.EOF
+	}
+""", """	clusterIndex := 0
+	if int(fl.offset/int64(bytesPerCluster)) >= len(clusters) {
+		return totalRead, fmt.Errorf("cursor beyond the cluster chain")
+	}
+
+	// if there is nothing left to read, just return EOF
+	if size <= 0 {
+		return totalRead, io.EOF
+	}
+""")]},
+]
